@@ -464,6 +464,31 @@ def h5J (j : Json) : M Json := do
   let r := save prev w ow
   pure (Json.mkObj [("outcome", Json.str "ok"), ("raised", Json.bool r.raised), ("disk", diskJ r.disk)])
 
+/-! binary layouts (C06 / C19): bytes travel as lists of numbers -/
+def jLayout (j : Json) : M Dnp.Layout.Layout := do
+  pure { hdr := ← jNat (← jField j "hdr"), rowPrefix := ← jNat (← jField j "rowPrefix"), rowPad := ← jNat (← jField j "rowPad"),
+         pointBytes := ← jNat (← jField j "pointBytes"), rowLen := ← jNat (← jField j "rowLen"),
+         outer := ← jNatList (← jField j "outer"), perm := ← jNatList (← jField j "perm"),
+         trailerOk := (jFieldOpt j "trailerOk").isSome }
+
+def layoutJ (j : Json) : M Json := do
+  let L ← jLayout (← jField j "L")
+  match ← jStr (← jField j "q") with
+  | "decode" =>
+    let bs ← jNatList (← jField j "bytes")
+    match Dnp.Layout.decode L bs with
+    | .ok a => pure (Json.mkObj [("outcome", "ok"), ("result", "ok"), ("shape", natsJ a.shape),
+        ("points", Json.arr (a.data.map natsJ).toArray)])
+    | .error .short => pure (Json.mkObj [("outcome", "ok"), ("result", "short")])
+    | .error .long => pure (Json.mkObj [("outcome", "ok"), ("result", "long")])
+  | "encode" =>
+    let shape ← jNatList (← jField j "shape")
+    let pts ← (← jArr (← jField j "points")).mapM jNatList
+    let fill ← jNat (← jField j "fill")
+    pure (Json.mkObj [("outcome", "ok"), ("bytes", natsJ (Dnp.Layout.encode L fill ⟨shape, pts⟩)),
+      ("total", Json.num (Int.ofNat L.total))])
+  | q => throw s!"unknown layout query {q}"
+
 def loadJ (j : Json) : M Json := do
   match ← jStr (← jField j "q") with
   | "autodetect" =>
@@ -488,6 +513,12 @@ partial def loop (h : IO.FS.Stream) (out : IO.FS.Stream) (s : Store) : IO Unit :
     out.putStrLn (Json.compress (Json.mkObj [("outcome", Json.str ("driver-error:" ++ e))]))
     loop h out s
   | .ok j =>
+    if (j.getObjVal? "op").toOption == some (Json.str "layout") then
+      match layoutJ j with
+      | .ok r => do out.putStrLn (Json.compress r); loop h out s
+      | .error e => do
+        out.putStrLn (Json.compress (Json.mkObj [("outcome", Json.str ("driver-error:" ++ e))])); loop h out s
+    else
     if (j.getObjVal? "op").toOption == some (Json.str "load") then
       match loadJ j with
       | .ok r => do out.putStrLn (Json.compress r); loop h out s
